@@ -932,7 +932,7 @@ m("c07-selector-slice-unguarded", "C07", "precompiles/distribution/distribution.
   "\tif len(input) < 4 {\n\t\treturn 0\n\t}\n", "",
   "(precompiles/distribution.Precompile).RequiredGas#prefix-slice-1-guarded", "short calldata panics in RequiredGas again")
 m("c09-merge-lowers-tracked-delegation", "C09", "x/vesting/keeper/msg_server.go",
-  "sdk.MaxInt(trackedAmt, delegatedAmt)", "delegatedAmt",
+  "sdk.MaxInt(trackedAmt, delegatedAmt)", "sdk.MinInt(trackedAmt, delegatedAmt)",
   "tracked-delegation-not-lowered", "the merge overwrites the tracking with the current figure alone")
 for prop in ("C16", "C07"):
     m("c%s-gas-meter-without-precharge" % prop[1:], prop, "precompiles/common/precompile.go",
